@@ -14,7 +14,7 @@ def run(ctx):
     n = 40 if ctx.thorough else 6
     ops = 300 if ctx.thorough else 120
     st = subjects.run(ctx, "C02", subjects.STATIC + subjects.STACK + ["iter3", "iter3-static"], ["rwdi", "dbg"], n, ops)
-    st.update(subjects.run(ctx, "C02", subjects.POOL + subjects.COLL, ["rwdi", "dbg"], max(2, n // 3), 100))
+    st.update(subjects.run(ctx, "C02", subjects.POOL + subjects.COLL, ["rwdi", "dbg"], max(4, n // 3), 100))
     ctx.coverage["rule"] = ("seeded histories on static_allocator, memory_stack (3 sources), iteration_allocator, memory_pool (3 list types) and "
                             "memory_pool_collection (3 x identity/log2), fences off (rwdi) and 8 (dbg); sizes 0..>block incl. SIZE_MAX-64.., "
                             "alignments 1..4096 on the stack family; oracle on the real code for every returned pointer: non-null, "
